@@ -40,7 +40,7 @@ AllInBox == \A d \in Shifts(Tau) : InSearchBox(P, d)
           the shift by the code's decimal rounding of the centres (centres in thirds, sixths, twelfths) plus 1e-9 *)
 Tight == Rec.tol[1] * 1000 <= Rec.tol[2]
 Undetermined(amb) == amb \/ Rec.near
-Union(a, b) == {e[1] : e \in RecPair(a, b)}
+PairRs(a, b) == {e[1] : e \in RecPair(a, b)}
 
 SetRvecClauses(W, amb) ==
    [ (* the specification decides the same replicas and degeneracies (exact, per pair of Wannier functions) *)
@@ -54,7 +54,7 @@ SetRvecClauses(W, amb) ==
      weights_total  |-> \A a, b \in 1..nw : TotalWeightOK(P, RecPair(a, b), LcmSet({e[2] : e \in RecPair(a, b)})),
      minus_symmetry |-> Undetermined(amb) \/ \A a, b \in 1..nw : InSearchBox(P, Delta(Tau, a, b)) => RecPair(b, a) = MinusSet(RecPair(a, b)),
      (* iRvec contains every replica (it may contain more: such R carry zero matrices), no R twice *)
-     irvec_covers   |-> (\A a, b \in 1..nw : Union(a, b) \subseteq RecIRvec) /\ Cardinality(RecIRvec) = Len(Rec.iRvec),
+     irvec_covers   |-> (\A a, b \in 1..nw : PairRs(a, b) \subseteq RecIRvec) /\ Cardinality(RecIRvec) = Len(Rec.iRvec),
      unambiguous    |-> ~Undetermined(amb) ]
 QtoRClauses(W, amb) ==
    [ input_hermitian |-> IsHermitianData(Dat),
